@@ -134,10 +134,14 @@ fn main() {
             None
         };
 
+        let mut output_error = None;
         if let Some(outpath) = args.get_one::<String>("OUTPUT") {
             debug!("Opening output file {} ...", outpath);
             match File::create(outpath) {
-                Err(e) => error!("Could not open output file {}: {}.", outpath, e),
+                Err(e) => {
+                    error!("Could not open output file {}: {}.", outpath, e);
+                    output_error = Some(exitcode::CANTCREAT);
+                }
                 Ok(file) => {
                     let res = if args.get_flag("cde") {
                         cdecao::io::cdedb::write(
@@ -156,7 +160,10 @@ fn main() {
                     };
                     match res {
                         Ok(_) => debug!("Assignment written to {}.", outpath),
-                        Err(e) => error!("Could not write assignment to {}: {}.", outpath, e),
+                        Err(e) => {
+                            error!("Could not write assignment to {}: {}.", outpath, e);
+                            output_error = Some(exitcode::IOERR);
+                        }
                     }
                 }
             }
@@ -172,6 +179,10 @@ fn main() {
                     possible_rooms.as_deref(),
                 )
             );
+        }
+
+        if let Some(code) = output_error {
+            std::process::exit(code);
         }
     } else {
         warn!("No feasible solution found.");
